@@ -117,6 +117,14 @@ func (e *Engine) dispatchCall(st *State, cc *ssa.CallCommon, site ssa.Instructio
 		k(st, []Val{term(fmt.Sprintf("(%s %s)", name, strings.Join(ts, " ")), rt)})
 		return
 	}
+	if os.Getenv("SPECV_DEBUG_DYN") != "" {
+		fmt.Fprintf(os.Stderr, "dynamic call in %s: kind=%d term=%q value=%T %v\n", e.oblPrefix(fr.fn), fv.K, fv.T, cc.Value, cc.Value)
+	}
+	if strings.HasPrefix(fv.T, "(select Box_func") {
+		// a function value of this very function (a closure or callback) whose identity was forgotten by a heap
+		// havoc: skipping the call would silently drop its effects, so this is a tool limit, never a pass
+		limitf("call of a local function value whose identity was lost (%s in %s)", fv.T, e.oblPrefix(fr.fn))
+	}
 	e.unmodelled["dynamic call in "+e.oblPrefix(fr.fn)] = true
 	e.bumpAlloc(st)
 	e.havocArgs(st, args)
